@@ -2,11 +2,13 @@
    Only statements; each is closed by [exact] of a lemma in Proof/ZcnMint.v.
 
    What the real BLS library answers for every signature entry (valid / well-formed but not
-   verifying / undecodable) is an input of the model. The code as it is lets an entry through
-   whenever Verify returns without an error, also when it returns false
-   (models.go verifySignatures: errors.Wrap(nil, ...) is nil), so the quorum clause is false of the
-   code (C18_quorum_refuted) and is proved for all mints whose counted entries contain no
-   well-formed-but-invalid signature (C18_quorum_partial). The other clauses hold in full. *)
+   verifying / undecodable) is an input of the model. The code as it is ends verifySignatures as
+   PASSED at the first entry (in id order) for which Verify returns (false, nil):
+   [if !ok || err != nil { return errors.Wrap(err, ...) }] and errors.Wrap(nil, ...) is nil; the
+   entries after it are not even looked up. So the quorum clause is false of the code
+   (C18_quorum_refuted), and so is "the fee goes to an authorizer" in general; both are proved for
+   all mints whose counted entries contain no well-formed-but-invalid signature (C18_*_partial).
+   The other clauses hold in full. *)
 From ZC Require Import Model.ZcnMint Proof.ZcnMint.
 Open Scope Z_scope.
 
@@ -37,7 +39,7 @@ Print Assumptions C18_quorum_partial.
 
 (* The submitter is the receiving client; the receiver gets exactly amount - share from the contract
    wallet (share = max_fee / number of counted entries <= amount); the share is credited to the
-   stake pool of exactly one of the listed, registered signers (or to nobody when it is 0 or that
+   stake pool of exactly one of the listed signers (or to nobody when it is 0 or that
    pool's stake is below min_stake: DistributeRewards pays nothing then); no other pool, and no
    registration, changes. Duplicate, foreign or empty ids never add to the count: the threshold is
    compared with the number of distinct ids, every one of which must be registered. *)
@@ -48,7 +50,7 @@ Theorem C18_receiver_amount_and_fee :
     zp_receiver p = client /\
     tr = [(zm_wallet, client, zp_amount p - share)] /\ share <= zp_amount p /\
     zm_min_mint st <= zp_amount p /\
-    In paid (map zs_id (zm_counted st p)) /\ In paid (zm_reg st) /\
+    In paid (map zs_id (zm_counted st p)) /\
     (cred = share \/ cred = 0) /\
     exists pool, zm_pool_get paid (zm_pools st) = Some pool /\
       (cred = 0 <-> share = 0 \/ zl_stake pool < zm_min_stake st) /\
@@ -57,6 +59,15 @@ Theorem C18_receiver_amount_and_fee :
       zm_reg st' = zm_reg st /\ zm_count st' = zm_count st.
 Proof. exact zm_mint_effect. Qed.
 Print Assumptions C18_receiver_amount_and_fee.
+
+(* ... and outside the trigger that signer is a registered authorizer *)
+Theorem C18_fee_goes_to_registered_authorizer_partial :
+  forall st client p pick st' tr paid cred,
+    zm_mint st client p pick = (st', ZmMinted tr paid cred) ->
+    (forall s, In s (zm_counted st p) -> zs_res s <> ZsInvalid) ->
+    In paid (zm_reg st).
+Proof. exact zm_fee_receiver_registered. Qed.
+Print Assumptions C18_fee_goes_to_registered_authorizer_partial.
 
 (* Each mint nonce succeeds at most once, over any history of registrations, deletions and mints *)
 Theorem C18_nonce_mints_once :
